@@ -38,6 +38,46 @@ func main() {
 	}
 }
 
+// isSyncStmt: the statement is a mutex operation, a channel send or receive, a select or a go
+// statement. Delaying a goroutine right before such a statement is what exposes a check-then-act gap, so
+// the scheduler prefers these points for preemptions and stalls.
+func isSyncStmt(st ast.Stmt) bool {
+	isMutexCall := func(e ast.Expr) bool {
+		call, ok := e.(*ast.CallExpr)
+		if !ok || len(call.Args) != 0 {
+			return false
+		}
+		se, ok := call.Fun.(*ast.SelectorExpr)
+		if !ok {
+			return false
+		}
+		switch se.Sel.Name {
+		case "Lock", "RLock", "Unlock", "RUnlock":
+			return true
+		}
+		return false
+	}
+	isRecv := func(e ast.Expr) bool {
+		u, ok := e.(*ast.UnaryExpr)
+		return ok && u.Op == token.ARROW
+	}
+	switch x := st.(type) {
+	case *ast.ExprStmt:
+		return isMutexCall(x.X) || isRecv(x.X)
+	case *ast.DeferStmt:
+		return false
+	case *ast.SendStmt, *ast.SelectStmt, *ast.GoStmt:
+		return true
+	case *ast.AssignStmt:
+		for _, r := range x.Rhs {
+			if isRecv(r) {
+				return true
+			}
+		}
+	}
+	return false
+}
+
 func rewrite(simrtPath, file string) error {
 	fset := token.NewFileSet()
 	f, err := parser.ParseFile(fset, file, nil, parser.SkipObjectResolution)
@@ -66,7 +106,11 @@ func rewrite(simrtPath, file string) error {
 				// a yield before a labelled statement would detach the label from its loop
 			default:
 				yields++
-				out = append(out, &ast.ExprStmt{X: &ast.CallExpr{Fun: sel("Yield"), Args: []ast.Expr{site(st)}}})
+				fn := "Yield"
+				if isSyncStmt(st) {
+					fn = "YieldSync" // a scheduling point in front of a synchronisation operation
+				}
+				out = append(out, &ast.ExprStmt{X: &ast.CallExpr{Fun: sel(fn), Args: []ast.Expr{site(st)}}})
 			}
 			out = append(out, st)
 		}
